@@ -242,16 +242,19 @@ Definition x_check_rstack (c : cfg) (s : st) (X : xpart) : xpart :=
 
 Definition push (X : xpart) (x : fx) : xpart := set_xs X (x :: xs X).
 
+(* mcount_prepare -> mcount_watch_setup at the thread's first hook: the thread's copy of the variable *)
+Definition x_first (C : xcfg) (X : xpart) (o : oval) : xpart :=
+  match v_copy X with
+  | None => if wp_var C then
+              {| xs := xs X; pend := pend X; w_inited := w_inited X; w_cpu := w_cpu X;
+                 v_copy := Some (o_var o); g_init := g_init X; g_val := g_val X; xout := xout X |}
+            else X
+  | Some _ => X
+  end.
+
 Definition x_enter (C : xcfg) (s : st) (X : xpart) (a t : N) (o : oval) : xpart :=
   let c := xb C in
-  (* mcount_prepare -> mcount_watch_setup at the thread's first hook: copy of the variable *)
-  let X0 := match v_copy X with
-            | None => if wp_var C then
-                        {| xs := xs X; pend := pend X; w_inited := w_inited X; w_cpu := w_cpu X;
-                           v_copy := Some (o_var o); g_init := g_init X; g_val := g_val X; xout := xout X |}
-                      else X
-            | Some _ => X
-            end in
+  let X0 := x_first C X o in
   let '(s1, v, _, _) := entry_check c s a in
   let X1 := x_check_rstack c s X0 in
   match shp c, v with
